@@ -1,5 +1,5 @@
 --------------------------- MODULE Trace_SendLoop ---------------------------
-EXTENDS SendLoop, Json, IOUtils
+EXTENDS SendLoop, Json, IOUtils, TraceUtil
 Rec == ndJsonDeserialize(IOEnv.TRACE)
 VARIABLES l, cfg, st
 tvars == <<l, cfg, st>>
@@ -11,11 +11,11 @@ Step(e) ==
   CASE e.ev = "reset" -> cfg' = e /\ st' = InitLoop(e)
     [] e.ev = "hop" ->
          /\ \A g \in HopViolations(cfg, st, e) :
-               /\ PrintT(<<"VIOL", l, cfg.id, HopProp(g, st), g>>)
-               /\ AlsoC10(g, st) => PrintT(<<"VIOL", l, cfg.id, "C10", g>>)
+               /\ Viol(l, cfg.id, HopProp(g, st), g, "")
+               /\ AlsoC10(g, st) => Viol(l, cfg.id, "C10", g, "")
          /\ st' = AfterHop(cfg, st) /\ UNCHANGED cfg
     [] e.ev = "done" ->
-         /\ \A g \in DoneViolations(cfg, st, e) : PrintT(<<"VIOL", l, cfg.id, DoneProp(g), g>>)
+         /\ \A g \in DoneViolations(cfg, st, e) : Viol(l, cfg.id, DoneProp(g), g, "")
          /\ UNCHANGED <<cfg, st>>
 
 TraceNext == l <= Len(Rec) /\ l' = l + 1 /\ Step(Rec[l])
